@@ -92,7 +92,7 @@ Emit ==
     IF EmitOn /\ Terminal
     THEN PrintT("@@B" \o ToJson(
            [ w |-> W, layout |-> Layout, img |-> img, inp |-> input0,
-             status |-> IF Running(m) THEN "cut" ELSE m.status, ops |-> m.ops,
+             status |-> IF Running(m) THEN "cut" ELSE m.status, ops |-> m.ops, flips |-> m.flips, jumps |-> m.jumps,
              fault |-> IF m.fault = <<>> THEN <<>> ELSE Bytes(m.fault),
              out |-> m.out, hist |-> [i \in 1..Len(m.hist) |-> Bytes(m.hist[i])],
              mem |-> MemList(m), inused |-> Len(input0) - Len(m.inp) ]))
